@@ -9,8 +9,11 @@ from dataclasses import dataclass, field
 from typing import *
 from collections import deque
 import collections.abc
-from apischema import serializer, serialize
+from apischema import serializer, serialize, UndefinedType
 from apischema.conversions import Conversion
+
+class Opaque:
+    pass
 from apischema.json_schema import serialization_schema
 
 @dataclass(frozen=True)
@@ -57,6 +60,9 @@ CONTAINERS = [
     ("List[Deque[Item]]", lambda mk, r: [collections.deque(mk() for _ in range(r.randint(0, 2))) for _ in range(r.randint(0, 2))]),
     ("Deque[List[Item]]", lambda mk, r: collections.deque([mk() for _ in range(r.randint(0, 2))] for _ in range(r.randint(0, 2)))),
     ("Dict[str, Deque[Item]]", lambda mk, r: {k: collections.deque(mk() for _ in range(r.randint(0, 2))) for k in r.sample(["a", "b"], r.randint(0, 2))}),
+    # an alternative the schema builder skips (Undefined has no schema; Opaque has none at all) before / after the converted one
+    ("Union[UndefinedType, Item]", lambda mk, r: mk()), ("Union[Item, UndefinedType]", lambda mk, r: mk()), ("Union[Opaque, Item]", lambda mk, r: mk()),
+    ("List[Union[Opaque, Item]]", lambda mk, r: [mk() for _ in range(r.randint(0, 2))]),
     ("Bag2[Item]", None), ("List[Bag2[Item]]", None), ("Deque[Optional[Item]]", lambda mk, r: collections.deque((mk() if r.random() < 0.7 else None) for _ in range(r.randint(0, 3)))),
 ]
 
